@@ -25,6 +25,7 @@ type c10Prog struct {
 	HeadsOnly bool       `json:"headsOnly"`          // entries loader: supply the heads
 	Runs      []loadSpec `json:"runs"`               // >= 3 executions with different concurrency / completion order
 	HeadPerm  []int      `json:"headPerm,omitempty"` // order of the published head list (empty: the log\'s own order)
+	Shared    int        `json:"shared,omitempty"`   // 0: a fresh limit variable per load; 1-4: the caller keeps ONE limit variable for all its loads and first uses it for a load through loader #(Shared-1)
 }
 
 func genC10(t *rapid.T) c10Prog {
@@ -38,6 +39,7 @@ func genC10(t *rapid.T) c10Prog {
 	if rapid.Bool().Draw(t, "permuteHeads") {
 		p.HeadPerm = rapid.SliceOfN(rapid.IntRange(0, 7), 1, 6).Draw(t, "headPerm")
 	}
+	p.Shared = rapid.SampledFrom([]int{0, 0, 1, 2, 3, 4, 4}).Draw(t, "shared")
 	for i := 0; i < 3; i++ {
 		s := genLoadSpec(t)
 		s.Loader = p.Loader
@@ -144,13 +146,28 @@ func runC10(tb ev.TB, p c10Prog) ev.Result {
 
 	var outcomes []world.Set
 	anyOOO := false
+	// a caller may keep its limit in one variable and hand the same pointer to every load it makes
+	sharedLimit := n
+	if p.Shared > 0 {
+		hs := r.Log.Heads().Slice()
+		if len(hs) > 0 {
+			wl := []string{"manifest", "json", "entries", "hash"}[(p.Shared-1)%4]
+			if _, err := doLoad(ctx, w.Store.API(), w, wl, manifest, jsonLog, append([]iface.IPFSLogEntry(nil), hs...), hs[0].GetHash(), &sharedLimit, 0, nil, 0); err != nil {
+				tb.Fatalf("%s loader, limit %d (first load through the caller's limit variable): %v", wl, n, err)
+			}
+		}
+	}
 	for ri2, spec := range p.Runs {
 		var got world.Set
 		var lerr error
 		var dup bool
 		nn := n
+		lp := &nn
+		if p.Shared > 0 {
+			lp = &sharedLimit // the same variable serves every load of this caller
+		}
 		res := gatedOrPlain(tb, coll, w, spec, func() {
-			l, err := doLoad(ctx, w.Store.API(), w, loader, manifest, jsonLog, append([]iface.IPFSLogEntry(nil), suppliedEntries...), hash, &nn, spec.Concurrency, nil, 0)
+			l, err := doLoad(ctx, w.Store.API(), w, loader, manifest, jsonLog, append([]iface.IPFSLogEntry(nil), suppliedEntries...), hash, lp, spec.Concurrency, nil, 0)
 			lerr = err
 			if err == nil {
 				hs := world.Hashes(l.GetEntries())
@@ -164,7 +181,7 @@ func runC10(tb ev.TB, p c10Prog) ev.Result {
 		if res.OutOfOrder > 0 {
 			anyOOO = true
 		}
-		where := fmt.Sprintf("%s loader, limit %d, log size %d (reachable %d), %d supplied, run %d (concurrency %d, gated %v)", loader, n, len(r.Model), size, k, ri2, spec.Concurrency, spec.Gated)
+		where := fmt.Sprintf("%s loader, limit %d, log size %d (reachable %d), %d supplied, run %d (concurrency %d, gated %v, limit variable shared with earlier loads: %v)", loader, n, len(r.Model), size, k, ri2, spec.Concurrency, spec.Gated, p.Shared > 0)
 		if lerr != nil {
 			tb.Fatalf("%s: load failed: %v", where, lerr)
 		}
